@@ -12,7 +12,7 @@ RULE = ("C02's zones/values generators (int8..uint64 incl. magnitudes whose squa
         "subsets, zone_ids with >= 1 existing id) and crosstab (2-D count/percentage, 3-D count with layer chunking); the Dask "
         "table is compared with the NumPy table and with the naive reference (tie-breaker); non-trivial = distinct (data, chunkings, "
         "call) with >= 2 blocks and a zone that is absent from some block")
-BUDGET = {'quick': 150, 'thorough': 900}
+BUDGET = {'quick': 300, 'thorough': 900}
 FLOORS = {'quick': {'stats.dask_equals_numpy': 80, 'crosstab.dask_equals_numpy': 36, 'chunks.differ_between_inputs': 57,
                     'zone_absent_from_a_block': 77, 'zone_without_valid_cell': 5, 'scheduler.threads': 60, 'int_squares_overflow_dtype': 5},
           'thorough': {'stats.dask_equals_numpy': 1500, 'crosstab.dask_equals_numpy': 800}}
@@ -71,6 +71,14 @@ def check(rec, kind, idx, rng, tier):
     cap = 36 if rng.random() < 0.1 else 12        # many tiny blocks are very slow in dask.dataframe; keep most cases moderate
     chz = _chunks(rng, H, W, cap)
     chv = chz if rng.random() < 0.5 else _chunks(rng, H, W, cap)
+    bigcount = kind == 'xtab' and idx % 8 == 5
+    if bigcount:
+        # few zones and categories on a raster of 1000-2300 cells cut into blocks of fewer than 256 cells: every table entry
+        # exceeds what a counter sized for one block can hold
+        H, W = int(rng.choice([32, 40, 48])), int(rng.choice([32, 40, 48]))
+        cy, cx = int(rng.choice([8, 10, 12, 15])), int(rng.choice([8, 10, 12, 15]))
+        chz = (tuple([cy] * (H // cy) + ([H % cy] if H % cy else [])), tuple([cx] * (W // cx) + ([W % cx] if W % cx else [])))
+        chv = chz if rng.random() < 0.7 else _chunks(rng, H, W, 36)
     if kind == 'stats':
         zkind, znf, zones = zgen.zones_raster(rng, H, W)
         vkind, vnf, values = zgen.values_raster(rng, H, W, int_overflow=bool(rng.random() < 0.4))
@@ -152,6 +160,9 @@ def check(rec, kind, idx, rng, tier):
     if kind == 'xtab':
         zkind, znf, zones = zgen.zones_raster(rng, H, W, max_zones=5)
         vkind, vnf, values = zgen.values_raster(rng, H, W, categorical=True)
+        if bigcount:
+            zones = rng.integers(1, 3, size=(H, W)).astype(zones.dtype if zones.dtype.kind in 'iu' else 'float64')
+            values = rng.integers(0, 2, size=(H, W)).astype(values.dtype if values.dtype.kind in 'iu' else 'float64')
         ndlabel, nodata = zgen.nodata_choice(rng, zones, values)
         if ndlabel == 'equals_zone_id':
             nodata = None
@@ -182,6 +193,8 @@ def check(rec, kind, idx, rng, tier):
             rec.violation(mech, 'crosstab on Dask raised %r (chunks %s / %s)' % (got, chz, chv), base); return
         _compare_xtab(rec, got, ref, zones, values, nodata, agg, base, chz, chv)
         absent, nblocks = _blocks_info(rec, zones, chz)
+        if bigcount and nblocks > 1 and max(int(((zones == z) & (values == c)).sum()) for z in uz for c in uc) > 255:
+            rec.cls('crosstab.count_above_255_over_small_blocks')
         return
     # 3-D count
     L = int(rng.integers(1, 5))
